@@ -56,6 +56,11 @@ def _install_audit():
 # Generation
 
 
+# Analysed packages use these at import time; Griffe imports them with sys.path *replaced* by the search paths, so
+# whether they can be imported then depends on whether the process has imported them before: make that constant.
+import pkgutil  # noqa: E402,F401
+import py_compile  # noqa: E402,F401
+
 STD_SUBMODULES = {"json": ["decoder", "encoder"], "os": ["path"], "logging": ["handlers"], "collections": ["abc"], "importlib": ["util", "machinery"], "email": ["utils"], "xml": ["dom"]}
 for _pkg, _subs in STD_SUBMODULES.items():
     for _sub in _subs:
